@@ -44,7 +44,7 @@ def main():
             "quick_cmd": "./check %s quick" % pid,
             "thorough_cmd": "./check %s thorough" % pid,
             "evidence_file": "/verif/evidence/%s.json" % pid,
-            "replay_cmd_template": "cat {path}",
+            "replay_cmd_template": "./replay {path}",
             "engine": "vcheck",
             "level_claimed": {"category": level, "text": text, "design_ref": "DESIGN.md " + ref},
             "level_note": note,
